@@ -272,6 +272,8 @@ class World:
             i.user_known = True
             if i.ident_blank:
                 i.ident_known = True
+        elif ev == "P" and not self.has_xquery():
+            pass        # no loaded module gives a password any meaning
         elif ev == "P":
             if i.challenge and i.creds is not None:
                 # response to a service's MORE challenge
